@@ -1,8 +1,79 @@
 import NflowsModel.Core.Driver
-/-! Core/Ops/C18 — driver operations used by the C18 correspondence (executable model, Mathlib-free). -/
+import NflowsModel.Core.Dist
+/-! Core/Ops/C18 — driver operations used by the C18 correspondence (executable model, Mathlib-free).
+
+op `c18`: evaluate one public call of the distribution interface on shapes.
+  {"op":"c18","call":"sample"|"log_prob"|"sample_and_log_prob",
+   "cls": CLASS, "n": PYVAL, "b": PYVAL, "ctx": null | [dims], "inputs": [dims]}
+  CLASS = {"k":"StandardNormal"|"ConditionalDiagonalNormal"|"DiagonalNormal"|"ConditionalIndependentBernoulli","event":[dims]}
+        | {"k":"MADEMoG","D":features,"C":context_features}
+        | {"k":"Flow","event":[dims],"tr":{"k":"ctxAware","C":c} | {"k":"noCtx","e":"RuntimeError"|"AttributeError"},
+           "emb": null | [cin, cout], "base": CLASS}
+  PYVAL = {"t":"int","v":k} | {"t":"bool","v":0|1} | {"t":"float"} | {"t":"none"} | {"t":"str"}
+answer: "f" = list of result shapes (one for sample / log_prob, two for sample_and_log_prob), "e" = exception class. -/
+open Lean
 namespace NF
+open NF.Dist
+
+def c18Field (j : Json) (k : String) : Json := (j.getObjVal? k).toOption.getD Json.null
+def c18Str (j : Json) (k : String) : String := (c18Field j k).getStr?.toOption.getD ""
+def c18Shape (j : Json) : Shape := ((jArr j).map jNat).toList
+
+def c18PyVal (j : Json) : PyVal :=
+  match c18Str j "t" with
+  | "int" => .int (jInt (c18Field j "v"))
+  | "bool" => .bool (jInt (c18Field j "v") != 0)
+  | "float" => .float
+  | "none" => .none
+  | _ => .str
+
+partial def c18Dist (j : Json) : Dist :=
+  let ev := c18Shape (c18Field j "event")
+  match c18Str j "k" with
+  | "StandardNormal" => (stdNormal ev).toDist
+  | "ConditionalDiagonalNormal" => (condDiagNormal ev).toDist
+  | "DiagonalNormal" => (diagNormal ev).toDist
+  | "ConditionalIndependentBernoulli" => (condBernoulli ev).toDist
+  | "MADEMoG" => (madeMoG (jNat (c18Field j "D")) (jNat (c18Field j "C"))).toDist
+  | _ =>
+    let trj := c18Field j "tr"
+    let tr : Tr := if c18Str trj "k" == "ctxAware" then .ctxAware (jNat (c18Field trj "C"))
+                   else .noCtx (DErr.ofName (c18Str trj "e"))
+    let embj := c18Field j "emb"
+    let emb : Emb := match jArr embj with
+      | #[a, b] => .linear (jNat a) (jNat b)
+      | _ => .identity
+    flow tr ev (c18Dist (c18Field j "base")) emb
+
+def c18Ctx (j : Json) : Option Shape := if j.isNull then none else some (c18Shape j)
+
+def runC18 (r : Req) : Resp :=
+  let j := r.raw
+  let d := c18Dist (c18Field j "cls")
+  let ctx := c18Ctx (c18Field j "ctx")
+  let n := c18PyVal (c18Field j "n")
+  let b := c18PyVal (c18Field j "b")
+  match c18Str j "call" with
+  | "sample" =>
+    match d.sample n ctx b with
+    | .ok s => { fs := [s] }
+    | .error e => { err := some e.name }
+  | "log_prob" =>
+    match d.logProb (c18Shape (c18Field j "inputs")) ctx with
+    | .ok s => { fs := [s] }
+    | .error e => { err := some e.name }
+  | "sample_and_log_prob" =>
+    match d.sampleAndLogProb n ctx with
+    | .ok (s, l) => { fs := [s, l] }
+    | .error e => { err := some e.name }
+  | _ => { err := some "bad-call" }
 
 /-- handler for the ops of this property; `none` = not one of mine -/
-def handleC18 (_r : Req) : Option Resp := none
+def handleC18 (r : Req) : Option Resp :=
+  if r.op == "c18" then some (runC18 r)
+  else if r.op == "c18_batch" then
+    -- i = [n, b]: origin (piece, position) of every draw of a batched sample, flattened
+    some { ints := (batchLayout (r.nat 0) (r.nat 1)).flatMap (fun pq => [Int.ofNat pq.1, Int.ofNat pq.2]) }
+  else none
 
 end NF
